@@ -354,6 +354,8 @@ def strategies():
             if k == "seq_nested":
                 n = draw(st.integers(0, 3))
                 sub_t, _ = value_term(depth_left - 1, False)
+                if ends_with_decint(sub_t):
+                    n = min(n, 1)  # a DecInt must not be followed by the digits of the next item
                 # the same term for all n items: redraw values for the fixed term
                 vals = [value_for(sub_t) for _ in range(n)]
                 return ["Seq", sub_t, n], ([vals] if as_element else vals)
@@ -392,7 +394,13 @@ def strategies():
                     flags.add("unsorted-rooms")
                 if H == 1 or W == 1:
                     flags.add("single-row-or-column")
-                values = it.stream(draw, len(rooms))
+                # the value stream is serialized in canonical room order: draw it in that order and
+                # hand it out to the rooms as listed
+                canon_stream = it.stream(draw, len(rooms))
+                order = sorted(range(len(rooms)), key=lambda i: sorted(rooms[i]))
+                values = [None] * len(rooms)
+                for pos, i in enumerate(order):
+                    values[i] = canon_stream[pos]
                 val = {"tup": [from_py(rooms), values]}
                 return ["ValuedRooms", it.term, {}], ([val] if as_element else val)
             raise AssertionError(k)
